@@ -24,7 +24,7 @@ type FilterSpec struct {
 
 func (fs FilterSpec) String() string {
 	switch fs.Op {
-	case "labels", "fn", "nsname", "labels2", "nsnames", "lsel", "sel", "rvparity", "slow":
+	case "labels", "fn", "nsname", "labels2", "nsnames", "lsel", "sel", "rvparity", "slow", "flaky":
 		return fs.Op + "(" + fs.K + "," + fs.V + ")"
 	case "not", "and", "or":
 		s := fs.Op + "("
@@ -57,6 +57,19 @@ func (fs FilterSpec) Build() filter.Filter {
 		// a constructor has to copy what it keeps
 		idBuf = append(idBuf[:0], nsname.New(fs.K, fs.V))
 		return filter.NSName(idBuf...)
+	case "flaky":
+		// a filter that is not a function of the object: it answers "no" to every
+		// V-th question (sampling, quotas, an allow-set somebody else updates).  No
+		// reference content can be stated for it - what the cache REPORTS about its
+		// own changes must still be exact.
+		n, every := 0, 3
+		if v, err := strconv.Atoi(fs.V); err == nil && v > 1 {
+			every = v
+		}
+		return filter.FN(func(o metav1.Object) bool {
+			n++
+			return n%every != 0
+		})
 	case "slow":
 		// a user filter that costs time: V microseconds (of the simulated clock)
 		// per object, accepts everything
